@@ -115,6 +115,19 @@ def first_write_index(f: FuncInfo, attrs: set[str]):
     return None
 
 
+def _anchor(program: Program, qual: str) -> FuncInfo:
+    """the effective definition of Class.method for instances of Class (it may be inherited, e.g. after a pull-up into a
+    template method), read with the hooks it calls on self / through super() inlined for that class"""
+    head, _, tail = qual.rpartition(".")
+    c = program.find_cls(head)
+    if c is not None:
+        f = c.resolve(tail)
+        if f is None:
+            raise AnalysisError(f"anchor vanished: function {qual}")
+        return inlined(program, f, c)
+    return inlined(program, program.func(qual))
+
+
 def check(program: Program, run: Run) -> None:
     run.explanation = (
         "Must-raise-before-write discipline over a frozen guard table (38 documented rejections discovered from the code and "
@@ -155,7 +168,7 @@ def check(program: Program, run: Run) -> None:
             cs = cs[1:] if len(cs) > 1 else []
         return cs
     for qual, attrs, exc, protects, opt in G:
-        f = inlined(program, program.func(qual))   # vanished anchor -> AnalysisError; private helpers / local functions inlined
+        f = _anchor(program, qual)   # vanished anchor -> AnalysisError; inherited definitions followed, private helpers / hooks / local functions inlined
         guards = collect_guards(f)
         label = opt.get("label") or ",".join(sorted(attrs))
         cands = select(guards, attrs, exc, opt)
@@ -238,7 +251,7 @@ def check(program: Program, run: Run) -> None:
         run.ob("C14/R2 source reaches the availability set", "do_join:_joins", ok, where=dj.loc())
         if not ok:
             run.finding("C14/availability-missing:QueryBuilder.do_join:_joins", "do_join does not pass the existing joins to join.validate", where=dj.loc(), rule="R2")
-    jv = inlined(program, program.func("JoinOn.validate"))
+    jv = _anchor(program, "JoinOn.validate")
     params = jv.params[1:]
     src_text = {}
     for s in ast.walk(jv.node):
@@ -246,6 +259,8 @@ def check(program: Program, run: Run) -> None:
             for t in s.targets:
                 if isinstance(t, ast.Name):
                     src_text[t.id] = s.value
+        if isinstance(s, ast.NamedExpr) and isinstance(s.target, ast.Name):
+            src_text[s.target.id] = s.value
 
     def expand_all(e, depth=0):
         """substitute local single-assignment names by their defining expressions (names are not relied upon)"""
@@ -257,6 +272,9 @@ def check(program: Program, run: Run) -> None:
                 if isinstance(n.ctx, ast.Load) and n.id in src_text and n.id not in jv.params:
                     return expand_all(src_text[n.id], depth + 1)
                 return n
+
+            def visit_NamedExpr(self, n):
+                return expand_all(n.value, depth + 1)
         import copy as _copy
         return Sub().visit(_copy.deepcopy(e))
 
